@@ -345,6 +345,7 @@ func (fr *Frame) applyContract(c *Contract, names []string, ptypes []types.Type,
 	if site != nil {
 		pos = site.Pos()
 	}
+	beforeUpto, beforeReach := len(vc.cmds), st.reach
 	old := st.clone()
 	for _, l := range c.Lets {
 		v, t, err := fr.evalIn(l.Text, pkg, env, st, old, nil)
@@ -377,6 +378,15 @@ func (fr *Frame) applyContract(c *Contract, names []string, ptypes []types.Type,
 	if c.Flags["havoc"] != "" {
 		fr.escapeArgs(args)
 		vc.havocAll(st)
+	}
+	// the callee may allocate: the set of allocated references can only grow
+	if c.Flags["havoc"] == "" {
+		oldA := vc.get(st, allocKey, allocSort)
+		neuA := vc.fresh(allocKey, allocSort)
+		vc.nfresh++
+		q := sym(fmt.Sprintf("al!q%d", vc.nfresh))
+		vc.emit("(assert (forall ((" + q + " Int)) (=> (select " + oldA + " " + q + ") (select " + neuA + " " + q + "))))")
+		st.heap[allocKey] = neuA
 	}
 	// results
 	var res Value
@@ -417,12 +427,25 @@ func (fr *Frame) applyContract(c *Contract, names []string, ptypes []types.Type,
 	for _, e := range c.Ensures {
 		v, _, err := fr.evalIn(e.Text, pkg, env, st, old, nil)
 		if err != nil {
+			if strings.Contains(err.Error(), "unknown identifier") {
+				// the clause speaks about the callee's locals: it is checked on the callee but
+				// tells a caller nothing (sound: fewer assumptions)
+				continue
+			}
 			return Value{}, fmt.Errorf("%s:%d: %v", e.File, e.Line, err)
 		}
 		vc.assume(st, v.C[0])
 	}
 	if c.Assumed {
 		vc.assumed["assumed contract: "+shortPkg(c.Pkg)+"."+c.Key] = true
+	}
+	// vacuity guard: the path must still be feasible after assuming the callee's postcondition
+	if fr.dry == 0 && st.reach != "false" {
+		nm := shortName(callee)
+		if fr.parent != nil {
+			nm = funcKey(fr.fn) + ":" + nm
+		}
+		vc.coverCall(beforeUpto, beforeReach, st, "after_call:"+nm, pos)
 	}
 	return res, nil
 }
